@@ -96,6 +96,20 @@ func (c *raceCtl) release(name string, d time.Duration) bool {
 	return false
 }
 
+func (c *raceCtl) waitParked(name string, d time.Duration) bool {
+	deadline := time.Now().Add(d)
+	for time.Now().Before(deadline) {
+		c.mu.Lock()
+		p := c.waiting[name]
+		c.mu.Unlock()
+		if p != nil {
+			return true
+		}
+		time.Sleep(time.Millisecond)
+	}
+	return false
+}
+
 func (c *raceCtl) releaseAll() {
 	c.mu.Lock()
 	c.active = false
@@ -396,7 +410,35 @@ func raceCase(args []string) string {
 	}()
 	// run the schedule
 	var done []string
-	for _, step := range g.Schedule {
+	var r res
+	gotRes := false
+	for i, step := range g.Schedule {
+		if step == "cancel" {
+			// the caller gives up: first let every goroutine named later in the schedule reach its parking point (a dial that has
+			// its connection but has not yet tried to claim the race), then cancel and wait for ProbeAndDial to return
+			for _, later := range g.Schedule[i+1:] {
+				if later != "cancel" {
+					ctl.waitParked(later, 3*time.Second)
+				}
+			}
+			callerCancel()
+			callerParked := false
+			for _, later := range g.Schedule[i+1:] {
+				if later == "premain" || later == "main" {
+					callerParked = true // it returns once the schedule lets it run
+				}
+			}
+			if !callerParked {
+				select {
+				case r = <-resCh:
+					gotRes = true
+				case <-time.After(3 * time.Second):
+					out["schedule_stuck_at"] = step
+				}
+			}
+			done = append(done, step)
+			continue
+		}
 		if !ctl.release(step, 3*time.Second) {
 			out["schedule_stuck_at"] = step
 			break
@@ -405,12 +447,13 @@ func raceCase(args []string) string {
 		time.Sleep(15 * time.Millisecond) // let the released goroutine run to its next point or finish
 	}
 	ctl.releaseAll()
-	var r res
-	select {
-	case r = <-resCh:
-	case <-time.After(8 * time.Second):
-		out["hang"] = true
-		return fin()
+	if !gotRes {
+		select {
+		case r = <-resCh:
+		case <-time.After(8 * time.Second):
+			out["hang"] = true
+			return fin()
+		}
 	}
 	out["schedule_done"] = done
 	umu.Lock()
